@@ -36,6 +36,19 @@ func (C03) Gen(r *core.Rng, tier string, emit func(string)) {
 			emit("ddes " + hexOrDash(specEncodeDir(es, func(int) bool { return fl })) + " # " + fmtEntries(es))
 		}
 	}
+	// highly regular directories (consecutive IDs, equal lengths, contiguous offsets): they compress
+	// to far fewer bytes than they have entries — size-based sanity checks must not reject them
+	for _, k := range []int{60, 61, 200, 1000, 4096, 9000} {
+		for _, l := range []uint32{1, 100, 70000} {
+			es := make([]pmtiles.EntryV3, k)
+			base := r.U64() % 1000000
+			for i := range es {
+				es[i] = pmtiles.EntryV3{TileID: base + uint64(i), Offset: uint64(i) * uint64(l), Length: l, RunLength: 1}
+			}
+			emit("dser gzip " + fmtEntries(es))
+			emit("dser none " + fmtEntries(es))
+		}
+	}
 	for i := 0; i < n; i++ {
 		es := randDir(r, g)
 		if i%50 == 0 && tier == "thorough" {
